@@ -2,7 +2,7 @@
 from fractions import Fraction
 
 from ..common import rng
-from ..drivers import programs, targeted
+from ..drivers import emitters, programs, targeted
 from ._twin import replay_programs, run_programs
 from ._util import replay_calls, run_calls
 
@@ -47,6 +47,7 @@ def check(run, tier):
     progs = []
     for dev in ("evo", "fluent"):
         progs += targeted.split_programs(dev)
+        progs += [p for p in emitters.targeted_programs(dev) if "multidisp" in p["id"]]
     n = 80 if q else 2000
     for i in range(n):
         dev = "evo" if i % 2 == 0 else "fluent"
